@@ -61,7 +61,11 @@ func runSpec(s spec) vh.Case {
 		if len(parts) > 2 {
 			variant = parts[2]
 		}
-		c = genClone(r, deg, variant)
+		if variant == "clear" {
+			c = genCloneClear(r, deg)
+		} else {
+			c = genClone(r, deg, variant)
+		}
 	case "M":
 		readers, _ := strconv.Atoi(parts[1])
 		moves, _ := strconv.Atoi(parts[2])
@@ -216,6 +220,8 @@ func main() {
 			{"W/limits", 12, 150}, {"I/2/stops", 4, 40}, {"I/3/stops", 4, 40},
 			{"I/2/reinsert", 6, 60}, {"I/3/reinsert", 5, 50}, {"I/4/reinsert", 4, 40}, {"I/8/reinsert", 3, 30},
 			{"C/2/fullroot", 8, 80}, {"C/3/fullroot", 8, 80}, {"C/4/fullroot", 6, 60}, {"C/8/fullroot", 4, 40},
+			// Clear(true/false) in clone programs whose trees share one small free list
+			{"C/2/clear", 8, 100}, {"C/3/clear", 6, 80}, {"C/4/clear", 4, 60}, {"C/8/clear", 2, 40},
 		}
 		if e.Thorough || e.Search {
 			vols = append(vols, vol{"I/5/mix", 0, 150}, vol{"I/16/mix", 0, 60}, vol{"I/32/mix", 0, 30}, vol{"C/5", 0, 80})
@@ -238,7 +244,7 @@ func main() {
 		// mix the classes so that the case files the driver cuts are of similar size
 		e.Rnd.Shuffle(len(specs), func(i, j int) { specs[i], specs[j] = specs[j], specs[i] })
 		supervise(e, specs)
-		e.Meta["generator"] = "c03/7"
+		e.Meta["generator"] = "c03/8"
 	})
 }
 
